@@ -204,7 +204,7 @@ func (fr *Frame) step(b *ssa.BasicBlock, instr ssa.Instruction, st *State, edgeC
 		for _, r := range in.Results {
 			rs = append(rs, fr.get(r))
 		}
-		fr.exits = append(fr.exits, frameExit{st: st, results: rs})
+		fr.exits = append(fr.exits, frameExit{st: st, results: rs, block: in.Block()})
 		return nil, false
 	case *ssa.Panic:
 		vc.oblige(st, "panic", fr.name("panic@"+shortPos(pos)), pos, "explicit panic reachable", tFalse, nil)
